@@ -106,7 +106,7 @@ def all_types(d):
                 yield from walk(r[k], lambda v, r=r, k=k: r.__setitem__(k, v))
 
 
-STRUCTURAL_EDITS = ["prop-type", "prop-rename", "prop-drop", "prop-optional", "enum-value", "enum-drop", "method", "direction",
+STRUCTURAL_EDITS = ["items-drop-last", "items-append", "items-drop-first", "extends-drop-last", "props-drop-last", "values-append", "prop-type", "prop-rename", "prop-drop", "prop-optional", "enum-value", "enum-drop", "method", "direction",
                     "alias-type", "struct-rename", "extends", "params", "result", "lit-value", "map-key", "struct-drop", "version"]
 ANNOT_EDITS = ["doc", "since", "proposed", "deprecated", "sinceTags"]
 
@@ -114,7 +114,25 @@ ANNOT_EDITS = ["doc", "since", "proposed", "deprecated", "sinceTags"]
 def apply_edit(d, kind, rnd):
     d = copy.deepcopy(d)
     S = d["structures"]
-    if kind == "prop-type":
+    if kind in ("items-drop-last", "items-append", "items-drop-first"):
+        want = rnd.choice(["or", "and", "tuple", "or"])
+        slots = [(t, st) for t, st in all_types(d) if t["kind"] == want and len(t["items"]) >= 2] or [(t, st) for t, st in all_types(d) if t["kind"] == "or"]
+        t, _ = rnd.choice(slots)
+        if kind == "items-drop-last":
+            t["items"].pop()
+        elif kind == "items-drop-first":
+            t["items"].pop(0)
+        else:
+            t["items"].append({"kind": "base", "name": "RegExp"})
+    elif kind == "extends-drop-last":
+        s = rnd.choice([s for s in S if (s.get("extends") or s.get("mixins"))])
+        (s["extends"] if s.get("extends") else s["mixins"]).pop()
+    elif kind == "props-drop-last":
+        rnd.choice([s for s in S if len(s["properties"]) >= 2])["properties"].pop()
+    elif kind == "values-append":
+        e = rnd.choice(d["enumerations"])
+        e["values"].append({"name": "ExtraMember", "value": "extra" if isinstance(e["values"][0]["value"], str) else 987654})
+    elif kind == "prop-type":
         s = rnd.choice([s for s in S if s["properties"]])
         rnd.choice(s["properties"])["type"] = {"kind": "base", "name": "RegExp"}
     elif kind == "prop-rename":
@@ -268,6 +286,28 @@ def main():
         except Exception as e:  # noqa: BLE001
             add(f"eq|{tag}", "comparison-raises", True, repr(e)[:200], tag)
     base = load([DOC])
+    # trailing-member edits of every or / and / tuple kind (a comparison that stops at the shorter list misses exactly these)
+    for want in ("or", "and", "tuple"):
+        for how in ("drop-last", "append"):
+            d = copy.deepcopy(DOC)
+            slots = [t for t, _ in all_types(d) if t["kind"] == want and len(t["items"]) >= 2]
+            if not slots:
+                continue
+            t = slots[rnd.randrange(len(slots))]
+            if how == "drop-last":
+                t["items"].pop()
+            else:
+                t["items"].append({"kind": "base", "name": "RegExp"})
+            try:
+                other = load([d])
+            except Exception:  # noqa: BLE001
+                continue
+            evals += 1
+            try:
+                if base == other or other == base:
+                    add(f"eq|{want}-items-{how}", "structurally-different-documents-compare-equal", False, True, f"{want} items {how}")
+            except Exception as e:  # noqa: BLE001
+                add(f"eq|{want}-items-{how}", "comparison-raises", False, repr(e)[:200], None)
     for k in STRUCTURAL_EDITS * (3 if THOROUGH else 1):
         d = apply_edit(DOC, k, rnd)
         try:
